@@ -33,6 +33,7 @@ inductive EType where
   | nonStr                        -- neither a `str` nor an `EventType`, e.g. `5`
   | name (s : String)             -- a non-empty string
   | cond (etrue efalse : EType)   -- `EventCond(etrue, efalse)`
+  | goto (st : Nat)               -- `fsm.Goto(state)` (an EventType; meaningful to FSM blocks only)
   deriving Repr, Inhabited, DecidableEq
 
 inductive Exc where
@@ -117,6 +118,7 @@ inductive BKind where
   | input      -- edzed.Input
   | counter    -- edzed.Counter
   | outfunc    -- edzed.OutputFunc: sends on_success / on_error events from inside its handler
+  | fsm        -- a table-driven edzed.FSM subclass (states s0, s1, …; scripted entry / exit actions)
   deriving Repr, Inhabited, DecidableEq
 
 /-- the user function of an OutputFunc -/
@@ -141,6 +143,15 @@ structure Blk where
   func : FuncScript := .value                   -- outfunc
   onSuccess : List Edge := []                   -- outfunc
   onError : List Edge := []                     -- outfunc
+  -- fsm: states `0 … nStates-1` (names s0, s1, …), the first state is the default initdef
+  nStates : Nat := 1
+  trans : List (String × Option Nat × Option Nat) := []   -- EVENTS: (event, from state / any, next state / None)
+  enterS : List (List Act) := []                -- enter_STATE callbacks (scripts), by state
+  exitS : List (List Act) := []                 -- exit_STATE callbacks
+  onEnter : List (List Edge) := []              -- on_enter_STATE events
+  onExit : List (List Edge) := []               -- on_exit_STATE events
+  onNotrans : List Edge := []
+  timed : List (Option (EType × Nat)) := []     -- TIMERS: timed event and duration (0 = zero delay), by state
   deriving Repr, Inhabited
 
 structure Circ where
@@ -161,6 +172,8 @@ inductive InitSt where
 inductive Phase where
   | init        -- the frame is inside `with self._enable_event: init_sblock(self, full=True)`
   | handler     -- the frame is inside the event handler
+  | window      -- the frame's handler (an FSM transition) is inside `with self._enable_event:`
+                -- (entry action or start of the timer): the documented chained-transition window
   deriving Repr, Inhabited, DecidableEq
 
 structure Frame where
@@ -169,7 +182,9 @@ structure Frame where
   deriving Repr, Inhabited, DecidableEq
 
 inductive TItem where
-  | enter (d : Nat) (depth : Nat) (value : Option Val)   -- handler of `d` entered, nesting depth of `d`
+  | enter (d : Nat) (depth : Nat) (value : Option Val) (win : Nat)
+      -- handler of `d` entered; `depth` = handler frames of `d` that are not suspended in a window
+      -- (incl. this one), `win` = frames of `d` suspended in the chained-transition window
   | exit (d : Nat) (ok : Bool)                           -- handler left normally / by an exception
   | refused (d : Nat)                                    -- "Forbidden recursive event() call"
   deriving Repr, Inhabited
@@ -181,6 +196,11 @@ structure St where
   error : Option Exc             -- `Circuit._error` (kind)
   stack : List Frame             -- ghost
   trace : List TItem             -- ghost, newest first
+  fstate : Nat → Option Nat := fun _ => Option.none      -- `FSM._state` (none = UNDEF)
+  fsmActive : Nat → Bool := fun _ => false                -- `FSM._fsm_event_active`
+  nextEv : Nat → Option Nat := fun _ => Option.none       -- `FSM._next_event` (its new state)
+  timer : Nat → Option EType := fun _ => Option.none      -- `FSM._active_timer` (its timed event)
+  timersEnabled : Bool := true                            -- `FSM._timers_enabled` (start() … stop())
 
 def upd {α : Type} (f : Nat → α) (i : Nat) (v : α) : Nat → α := fun j => if j = i then v else f j
 
@@ -198,6 +218,11 @@ def St.abort (s : St) (e : Exc) : St :=
 def handlerDepth (stk : List Frame) (d : Nat) : Nat :=
   stk.countP (fun f => f.blk == d && f.phase == .handler)
 
+def windowDepth (stk : List Frame) (d : Nat) : Nat :=
+  stk.countP (fun f => f.blk == d && f.phase == .window)
+
+def stateName (st : Nat) : String := "s" ++ toString st
+
 /-! ### handler tables -/
 
 abbrev HTable := List (String × List String × List String × Bool)
@@ -212,6 +237,7 @@ def handlersOf : BKind → HTable
   | .input => Gen.inputHandlers
   | .counter => Gen.counterHandlers
   | .outfunc => Gen.outputFuncHandlers
+  | .fsm => []          -- an FSM class has no `_event_NAME` methods: everything goes to `_event`
 
 /-- `type(self)._ct_handlers.get(etype)` for a resolved event type -/
 def lookupHandler (k : BKind) : EType → Option (String × List String × List String × Bool)
@@ -303,12 +329,22 @@ def counterOp (name : String) (data : Data) : Option Counter.Op :=
 
 /-- the value a Counter event stores and returns (`_setmod`), or the exception it raises -/
 def counterResult (b : Blk) (out : Val) (name : String) (data : Data) : Except Exc Val :=
-  match Counter.Num.ofVal? out, counterOp name data with
-  | some cur, some op =>
-    match (Counter.step (counterCfg b) cur op).2 with
-    | .ret v => .ok v.toVal
-    | .paramError => .error .other       -- unreachable: the call does not bind without `value`
-  | _, _ => .error .typeError            -- arithmetic on a non-number raises TypeError
+  if name == "put" then
+    -- `_setmod(value)`: the current output does not matter
+    match data.get? "value" with
+    | Option.none => .error .other       -- unreachable: the call does not bind without `value`
+    | some v =>
+      match Counter.Num.ofVal? v with
+      | some n => .ok (Counter.reduce (counterCfg b) n).toVal
+      | Option.none => if b.cmod.isNone then .ok v else .error .typeError   -- `value % modulo`
+  else if name == "reset" then .ok (Counter.reduce (counterCfg b) (counterCfg b).initdef).toVal
+  else
+    match Counter.Num.ofVal? out, counterOp name data with
+    | some cur, some op =>
+      match (Counter.step (counterCfg b) cur op).2 with
+      | .ret v => .ok v.toVal
+      | .paramError => .error .other
+    | _, _ => .error .typeError            -- arithmetic on a non-number raises TypeError
 
 /-- the user function of an OutputFunc: `none` = it raised -/
 def funcResult (f : FuncScript) (v : Val) : Option Val :=
@@ -356,20 +392,25 @@ def handlerBody (dlv : Dlv) (b : Blk) (d : Nat) (s : St) (name : String) (data :
         -- AFTER the try statement: on_success events, return ('result', result)
         andThen (sendEdges dlv d s b.onSuccess [("trigger", .str "success"), ("value", r)])
           (fun s1 => (s1, .ret (resultTuple r)))
+  | .fsm => (s, .ret .none)       -- not used: `FSM._event` is `fsmEvent` (see `callHandler`)
 
 /-- `init_regular()` -/
 def initRegular (dlv : Dlv) (b : Blk) (d : Nat) (s : St) : St × Res :=
   match b.kind with
   | .probe => runActs dlv b d s b.initScript
   | .outfunc => setOutput dlv b d s (.bool false)
-  | _ => (s, .ret .none)
+  | _ => (s, .ret .none)          -- input, counter, fsm: the default `init_regular` does nothing
 
 /-- `init_from_value(initdef)` if the block is still uninitialised and has an initdef -/
 def initFromValue (dlv : Dlv) (b : Blk) (d : Nat) (s : St) : St × Res :=
-  if (s.out d).isUndef && !b.initdef.isUndef then
+  if b.kind = .fsm then
+    -- `FSM.init_from_value(initdef)`: `self.event(Goto(value))`, initdef defaults to the first state
+    if (s.out d).isUndef then dlv s d (.goto 0) [] else (s, .ret .none)
+  else if (s.out d).isUndef && !b.initdef.isUndef then
     match b.kind with
     | .probe => (s, .ret .none)                                  -- no `init_from_value`
     | .outfunc => (s, .ret .none)
+    | .fsm => (s, .ret .none)
     | .input => dlv s d (.name "put") [("value", b.initdef)]    -- `self.event('put', value=value)`
     | .counter => setOutput dlv b d s (Counter.reduce (counterCfg b) (counterCfg b).initdef).toVal
   else (s, .ret .none)
@@ -402,22 +443,158 @@ def earlyInit (dlv : Dlv) (b : Blk) (d : Nat) (stk0 : List Frame) (s1 : St) : St
     ({ p.1 with active := upd p.1.active d saved, stack := stk0 }, p.2)
   else (s1, Res.ret .none)
 
+/-! ### `FSM._ctx_event` -/
+
+inductive FsmTarget where
+  | to (st : Nat)
+  | notrans
+  | unknown        -- EdzedUnknownEvent
+  | badState       -- `_check_state`: ValueError
+  | uninit         -- `assert self._state is not UNDEF`
+  deriving Repr, DecidableEq
+
+def transTarget (t : String × Option Nat × Option Nat) : FsmTarget :=
+  match t.2.2 with
+  | some n => .to n
+  | Option.none => .notrans
+
+/-- the new state of an event: Goto, the rule for the current state, else the any-state rule -/
+def fsmTarget (b : Blk) (cur : Option Nat) : EType → FsmTarget
+  | .goto st => if st < b.nStates then .to st else .badState
+  | .name ev =>
+    if !b.trans.any (fun t => t.1 == ev) then .unknown
+    else match cur with
+      | Option.none => .uninit
+      | some c =>
+        match b.trans.find? (fun t => t.1 == ev && t.2.1 == some c) with
+        | some t => transTarget t
+        | Option.none =>
+          match b.trans.find? (fun t => t.1 == ev && t.2.1 == Option.none) with
+          | some t => transTarget t
+          | Option.none => .notrans
+  | _ => .unknown
+
+/-- data of on_enter / on_exit events (the item `sdata`, a dict, is left out) -/
+def fsmData (trigger : String) (st : Nat) (out : Val) : Data :=
+  [("trigger", .str trigger), ("state", .str (stateName st)), ("value", out)]
+
+inductive WinBody where
+  | enter (st : Nat)         -- `self._run_cb('enter', state)`
+  | startTimer (st : Nat)    -- `self._start_timer(…, timed_event)`
+
+/-- what runs inside the window: the entry action, or `_start_timer` -/
+def winBody (dlv : Dlv) (b : Blk) (d : Nat) (s1 : St) : WinBody → St × Res
+  | .enter st => runActs dlv b d s1 (b.enterS.getD st [])
+  | .startTimer st =>
+    match b.timed.getD st Option.none with
+    | Option.none => (s1, .ret .none)
+    | some (ev, dur) =>
+      if dur = 0 then dlv s1 d ev []                -- zero delay: `self.event(timed_event)`
+      else if s1.timersEnabled then ({ s1 with timer := upd s1.timer d (some ev) }, .ret .none)
+      else (s1, .ret .none)
+
+/-- `with self._enable_event: …` inside a transition: the guard is released, the frame is marked -/
+def fsmWindow (dlv : Dlv) (b : Blk) (d : Nat) (stk0 : List Frame) (s : St) (wb : WinBody) : St × Res :=
+  let saved := s.active d
+  let p := winBody dlv b d { s with active := upd s.active d false, stack := ⟨d, .window⟩ :: stk0 } wb
+  ({ p.1 with active := upd p.1.active d saved, stack := ⟨d, .handler⟩ :: stk0 }, p.2)
+
+/-- start of a loop iteration: a parked request is unpacked (`_next_event = None`), then the
+    intermediate state is left with its exit callback only (no events) -/
+def chainExit (dlv : Dlv) (b : Blk) (d : Nat) (s : St) (chained : Bool) : St × Res :=
+  let sc := { s with nextEv := upd s.nextEv d Option.none }
+  if chained then
+    match sc.fstate d with
+    | some cur => runActs dlv b d sc (b.exitS.getD cur [])
+    | Option.none => (sc, .ret .none)
+  else (sc, .ret .none)
+
+/-- the `for _ in range(chainlimit)` loop; `chained` = this iteration executes a parked request -/
+def fsmChain (dlv : Dlv) (b : Blk) (d : Nat) (stk0 : List Frame) : Nat → St → Bool → Nat → St × Res
+  | 0, s, _, _ => (s, .exc .circuitError)        -- 'Chained state transition limit reached'
+  | k + 1, s, chained, ns =>
+    andThen (chainExit dlv b d s chained) fun s0 =>
+    andThen (fsmWindow dlv b d stk0 { s0 with fstate := upd s0.fstate d (some ns) } (.enter ns)) fun s2 =>
+    match s2.nextEv d with
+    | some ns' => fsmChain dlv b d stk0 k s2 true ns'
+    | Option.none =>
+      match b.timed.getD ns Option.none with
+      | Option.none => (s2, .ret .none)
+      | some _ =>
+        andThen (fsmWindow dlv b d stk0 s2 (.startTimer ns)) fun s3 =>
+        match s3.nextEv d with
+        | some ns' => fsmChain dlv b d stk0 k s3 true ns'
+        | Option.none => (s3, .ret .none)
+
+/-- leaving the current state (only when the FSM is initialised): exit callback, on_exit events,
+    `_stop_timer` -/
+def fsmLeave (dlv : Dlv) (b : Blk) (d : Nat) (s : St) : St × Res :=
+  if (s.out d).isUndef then (s, .ret .none) else
+  match s.fstate d with
+  | Option.none => (s, .ret .none)
+  | some cur =>
+    andThen (runActs dlv b d s (b.exitS.getD cur [])) fun s1 =>
+    andThen (sendEdges dlv d s1 (b.onExit.getD cur []) (fsmData "exit" cur (s1.out d))) fun s2 =>
+    ({ s2 with timer := upd s2.timer d Option.none }, .ret .none)
+
+/-- `calc_output()` = the state; `set_output`; on_enter events; `return True` -/
+def fsmFinish (dlv : Dlv) (b : Blk) (d : Nat) (s : St) : St × Res :=
+  match s.fstate d with
+  | Option.none => (s, .ret .none)
+  | some st =>
+    andThen (setOutput dlv b d s (.str (stateName st))) fun s5 =>
+    andThen (sendEdges dlv d s5 (b.onEnter.getD st []) (fsmData "enter" st (s5.out d))) fun s6 =>
+    (s6, .ret (.bool true))
+
+/-- the transition proper (the body of the `try` in `_ctx_event`) -/
+def fsmTransition (dlv : Dlv) (b : Blk) (d : Nat) (stk0 : List Frame) (s : St) (ns : Nat) : St × Res :=
+  andThen (fsmLeave dlv b d s) fun s3 =>
+  -- `assert self._next_event is None` (a request left over by a transition that hit the chain limit)
+  if (s3.nextEv d).isSome then (s3, .exc .other) else
+  andThen (fsmChain dlv b d stk0 (3 * b.nStates) s3 false ns) fun s4 =>
+  fsmFinish dlv b d s4
+
+/-- `FSM._event` / `_ctx_event` (cond_EVENT callbacks and the `duration` item are not modelled) -/
+def fsmEvent (dlv : Dlv) (b : Blk) (d : Nat) (stk0 : List Frame) (s : St) (et : EType) : St × Res :=
+  match fsmTarget b (s.fstate d) et with
+  | .unknown => (s, .exc .unknownEvent)
+  | .badState => (s, .exc .valueError)
+  | .uninit => (s, .exc .other)
+  | .notrans =>
+    andThen (sendEdges dlv d s b.onNotrans [("trigger", .str "notrans"), ("state", .str "")])
+      (fun s1 => (s1, .ret (.bool false)))
+  | .to ns =>
+    if s.fsmActive d then
+      -- a request made while a transition is in progress (only possible through the window)
+      match s.nextEv d with
+      | some _ => (s, .exc .circuitError)          -- 'Forbidden event multiplication'
+      | Option.none => ({ s with nextEv := upd s.nextEv d (some ns) }, .ret (.bool true))
+    else
+      let p := fsmTransition dlv b d stk0 { s with fsmActive := upd s.fsmActive d true } ns
+      -- finally:
+      ({ p.1 with fsmActive := upd p.1.fsmActive d false }, p.2)
+
+/-- the handler's frame: entry, body, exit (normally or by an exception), classification -/
+def inHandler (d : Nat) (stk0 : List Frame) (s3 : St) (data : Data) (body : St → St × Res) : St × Res :=
+  let s4 := { s3 with stack := ⟨d, .handler⟩ :: stk0,
+                      trace := .enter d (handlerDepth stk0 d + 1) (data.get? "value") (windowDepth stk0 d) :: s3.trace }
+  let p := body s4
+  let s6 := { p.1 with stack := stk0,
+                       trace := .exit d (match p.2 with | .ret _ => true | .exc _ => false) :: p.1.trace }
+  (classify s6 p.2, p.2)
+
 /-- handler lookup, the call, classification of its outcome -/
 def callHandler (dlv : Dlv) (b : Blk) (d : Nat) (stk0 : List Frame) (s3 : St) (et' : EType)
     (data : Data) : St × Res :=
+  if b.kind = .fsm then
+    -- no specialised handlers: `self._event(etype, data)`
+    inHandler d stk0 s3 data (fun s4 => fsmEvent dlv b d stk0 s4 et')
+  else
   match lookupHandler b.kind et' with
   | Option.none => (s3, .exc .unknownEvent)       -- `self._event()` raises; re-raised, no abort
   | some h =>
     if !paramsOk h data then (s3, .exc .typeError)   -- the call itself fails: caller only
-    else
-      let depth := handlerDepth stk0 d + 1
-      let s4 := { s3 with stack := ⟨d, .handler⟩ :: stk0,
-                          trace := .enter d depth (data.get? "value") :: s3.trace }
-      let p := handlerBody dlv b d s4 h.1 data
-      -- the handler's frame is left (normally or by an exception)
-      let s6 := { p.1 with stack := stk0,
-                           trace := .exit d (match p.2 with | .ret _ => true | .exc _ => false) :: p.1.trace }
-      (classify s6 p.2, p.2)
+    else inHandler d stk0 s3 data (fun s4 => handlerBody dlv b d s4 h.1 data)
 
 /-- the body of the `try` statement of `SBlock.event` -/
 def eventBody (dlv : Dlv) (b : Blk) (d : Nat) (stk0 : List Frame) (s1 : St) (et : EType)
@@ -451,7 +628,7 @@ def deliver (c : Circ) : Nat → St → Nat → EType → Data → St × Res
 /-! ### top level -/
 
 /-- enough fuel for every circuit state (`fuel_suffices`) -/
-def Circ.fuel (c : Circ) : Nat := 2 * c.n + 1
+def Circ.fuel (c : Circ) : Nat := 3 * c.n + 1
 
 /-- `ExtEvent(dest, etype).send(**data)` -/
 def extSend (c : Circ) (s : St) (d : Nat) (name : String) (data : Data) : St × Res :=
@@ -461,6 +638,18 @@ def extSend (c : Circ) (s : St) (d : Nat) (name : String) (data : Data) : St × 
 /-- a direct call `blk.event(etype, **data)` from outside of any handler -/
 def rawSend (c : Circ) (s : St) (d : Nat) (et : EType) (data : Data) : St × Res :=
   deliver c c.fuel s d et data
+
+/-- the timer of FSM `d` fires: `_timer_expired` = `self._active_timer = None; self.event(timed_event)` -/
+def tick (c : Circ) (s : St) (d : Nat) : Option (St × Res) :=
+  match s.timer d with
+  | Option.none => Option.none
+  | some ev =>
+    -- `_timer_expired` returns nothing; an exception goes to the event loop
+    some (andThen (deliver c c.fuel { s with timer := upd s.timer d Option.none } d ev [])
+      (fun s1 => (s1, .ret .none)))
+
+/-- the simulation task has ended: `FSM.stop()` for every block (timers cancelled and disabled) -/
+def stopAll (s : St) : St := { s with timer := fun _ => Option.none, timersEnabled := false }
 
 /-- the loop of `_init_sblocks_sync_2` over the blocks `ds` -/
 def initLoop (c : Circ) : St → List Nat → St × Res
@@ -481,6 +670,11 @@ def initAll (c : Circ) (s : St) : St × Res :=
   | (s1, .ret _) =>
     if (List.range c.n).all (fun d => !(s1.out d).isUndef) then (s1, .ret .none)
     else (s1.abort .circuitError, .exc .circuitError)
+
+/-- the start-up as seen from outside: when it fails, `run_forever` stops all blocks and ends -/
+def startUp (c : Circ) (s : St) : St × Res :=
+  let p := initAll c s
+  if p.1.error.isSome then (stopAll p.1, p.2) else p
 
 /-- state of a finalized circuit after the first initialisation pass -/
 def St.start : St := default
